@@ -5102,7 +5102,12 @@ yyreduce:
         {
           if ((yyvsp[0].expression).value.integer != 0)
           {
-            (yyval.expression).value.integer = OPERATION(/, (yyvsp[-2].expression).value.integer, (yyvsp[0].expression).value.integer);
+            // INT64_MIN \ -1 is undefined at run time (see OP_INT_DIV), and
+            // evaluating it here would trap.
+            if ((yyvsp[-2].expression).value.integer == INT64_MIN && (yyvsp[0].expression).value.integer == -1)
+              (yyval.expression).value.integer = YR_UNDEFINED;
+            else
+              (yyval.expression).value.integer = OPERATION(/, (yyvsp[-2].expression).value.integer, (yyvsp[0].expression).value.integer);
             (yyval.expression).type = EXPRESSION_TYPE_INTEGER;
           }
           else
@@ -5130,7 +5135,12 @@ yyreduce:
 
         if ((yyvsp[0].expression).value.integer != 0)
         {
-          (yyval.expression).value.integer = OPERATION(%, (yyvsp[-2].expression).value.integer, (yyvsp[0].expression).value.integer);
+          // INT64_MIN % -1 is undefined at run time (see OP_MOD), and
+          // evaluating it here would trap.
+          if ((yyvsp[-2].expression).value.integer == INT64_MIN && (yyvsp[0].expression).value.integer == -1)
+            (yyval.expression).value.integer = YR_UNDEFINED;
+          else
+            (yyval.expression).value.integer = OPERATION(%, (yyvsp[-2].expression).value.integer, (yyvsp[0].expression).value.integer);
           (yyval.expression).type = EXPRESSION_TYPE_INTEGER;
         }
         else
